@@ -48,7 +48,8 @@ CHECKS = {
              'the declarative partition/mask/bucket definitions; each of those cases is executed on the real code '
              '(several dtypes, trailing shapes, preprocessor chains incl. in-place mutating ones) and compared '
              'exactly, and larger random real runs are accepted by the specification with all invariants checked; the '
-             'bucket rule alone is exhausted for batch sizes up to 33 (48) and 7 buckets.',
+             'bucket rule alone is exhausted for batch sizes up to 33 (48) and 7 buckets; datasets obtained by slicing, '
+             'string / complex features, every call style and one-shot preprocessor chains are part of the replay.',
         note='Feature values are compared through the id-decoding projection of the driver; TLC, JVM.',
         design='5/C03'),
     'C04': dict(
@@ -72,7 +73,8 @@ CHECKS = {
              'valid or NaN garbage in padded rows and compared with the TLC rational; all merge groupings of real '
              'statistics (with and without zero) must agree with evaluate_model; all configurations of a metric class '
              'are evaluated on one batch through the jitted path in one process, each against its own statistics; '
-             'ModelEvaluator runs on 2 and 3 forced devices over clients with different batch counts.',
+             'ModelEvaluator runs on 2 and 3 forced devices over clients with different batch counts, and without jit '
+             '(debug backend, disable_jit) over the same cached batches twice.',
         note='Cross-entropy metrics only relationally (tolerance classes); banks of <= 4 examples, <= 3 batches of <= 3 rows.',
         design='5/C05'),
     'C06': dict(
@@ -141,7 +143,7 @@ CHECKS = {
              'checkpointed copy, and on a second algorithm object that continues from the restored state) and Immutable (no '
              'existing state changes fingerprint or loses a buffer); FedAvg also runs on haiku-shaped nested parameters with '
              'a freezing server optimizer; the round-1 state is also restored and continued in another interpreter with its '
-             'own hash seed.',
+             'own hash seed; a third of the round trips go through jax.device_get.',
         note='Bit-identical comparison on the CPU backend; fingerprints include nested container key sets and deleted '
              'buffers; rank >= 1 leaves for the rotation-based aggregators.',
         design='5/C10'),
